@@ -278,6 +278,14 @@ def main():
             from fastparquet import parquet_thrift
             packed = bytes(writer.encode_plain(data.notnull(), parquet_thrift.SchemaElement(type=parquet_thrift.Type.BOOLEAN)))
             return ["ok", bytes(block).hex(), len(out), packed.hex()]
+        if fn == "levels_v1":
+            # the Python reader of LEVEL streams (definition / repetition levels of a v1 page): core.read_data on a length-prefixed
+            # hybrid stream of any run structure, followed by the rest of the page
+            from fastparquet import core, parquet_thrift as pt
+            a = inbuf(c["inp"])
+            fi = nio(a)
+            out = hold(core.read_data(fi, pt.Encoding.RLE, c["count"], c["w"]))
+            return ["ok", [int(x) for x in np.asarray(out)[:c["count"]]], fi.tell()]
         if fn == "make_definitions_big":
             # pages of millions of rows (the 3 -> 4 byte boundary of the run header at 2^20 groups): too big to ship through the
             # extracted spec decoder as lists - the block is taken apart here with independent Python (varint, length prefix) and
